@@ -47,6 +47,16 @@ CHECKS["C06"] = dict(level="model_checking", ref="DESIGN.md §4 C06, §9",
     note=RACE_NOTE + " Sequential registry histories (aliases, events, relations of a terminated requester) are not yet bound.",
     tech="TLA+ specs Registry, IdGen + TLC; edge-cover plans replayed under the controlling scheduler; traces validated by TLC (Registry_Trace)")
 
+CHECKS["C07"] = dict(level="model_checking", ref="DESIGN.md §4 C07, §9",
+    text="TLA+ spec Call (fresh reference per call, buffered response channel, drop-and-retry on a foreign reference, timeouts, late / duplicate / third-party / "
+         "misdirected replies) model-checked exhaustively for 1-2 callers x 2-4 calls; the variant with wrapping references must be refuted by TLC (non-vacuity). "
+         "An edge cover of the state graphs is executed as histories on real callers and callees (timeouts scaled to 15 ms through a build-tag timer hook, replies sent "
+         "by the callee or a third process exactly when the history says) plus the reference wrap-around histories; TLC validates every recorded history: a call "
+         "returns only the value produced for that very request, a request is presented once, a reply is consumed once.",
+    note="Trusted: TLC; the harness orders replies (no controller needed: the property is about histories); Recv steps of the model are implicit in the code; "
+         "channel capacity 10 in the code, 2-3 in the model; remote calls are covered by C12/C14.",
+    tech="TLA+ spec Call + TLC; edge-cover histories executed on real processes; recorded histories validated by TLC (Call_Trace)")
+
 NOT_YET = {
 }
 
